@@ -24,10 +24,11 @@ RULE = ("operations in the simplified form (tree of response-keyed fields, each 
         "deferred-returning-a-deferred / future already finished (or failed) when the executor receives it, top level written "
         "plainly, inside an inline fragment or as one fragment spread, outcome value | null | list | object | ResolverError | unexpected exception | "
         "unserialisable value, nullable / non-null / list typing): bounded-exhaustive over 1-2 top-level fields x 3 modes x "
-        "9 outcome shapes, then seeded random trees; every operation runs under all four configurations and, for the two "
+        "10 outcome shapes, then seeded random trees; every operation runs under all four configurations and, for the two "
         "deferred runtimes, under ALL completion orders when it has <= 4 (quick) / <= 6 (thorough) tasks, else FIFO + LIFO + "
         "random orders; plus REAL ThreadPoolExecutor pools with 1 and 2 workers, resolvers still in flight when callbacks are attached, "
         "nested futures submitted from pool tasks, hard 4 s timeout = failing case. "
+        "plus REAL schemas whose fields take arguments with awkward names (func, fn, args, kwargs, self, loop, ...) passed explicitly / by default. "
         "distinct non-trivial = distinct (operation, schedule) with >= 1 deferred task")
 ASSUMPTIONS = [
     "completions are atomic: a task's completion and all callbacks/continuations it triggers run before the next completion "
@@ -164,11 +165,43 @@ class Checker:
                     if bad[0] == "never-completes":      # every further schedule would cost a watchdog period
                         return out
             if self.extra_oracle is not None:
-                bad = self.extra_oracle(case, config, sched, obs)
+                try:
+                    bad = self.extra_oracle(case, config, sched, obs)
+                except W.Watchdog:
+                    raise
+                except Exception as err:  # noqa  -- a result so malformed that the oracle cannot read it is a failing case
+                    bad = ("malformed-result", "the result cannot be inspected: %s: %s" % (type(err).__name__, err))
                 if bad:
                     out.append((bad[0], config, sched, bad[1]))
             if collect_model:
                 self.collect(case, config, sched, obs)
+        if not out and "exc" in W.features(case):
+            out += self.class_sweep(case)
+        return out
+
+    def class_sweep(self, case):
+        """every class of the unexpected exception at every position, one schedule per configuration"""
+        out = []
+        old = W.CLASS_SALT
+        try:
+            for salt in range(len(W.UNEXPECTED_CLASSES)):
+                W.CLASS_SALT = salt
+                ref = W.run_blocking(case)
+                for config, obs in (("generic-blocking", W.run_blocking(case, generic=True)),
+                                    ("asyncio", W.run_asyncio(case, [])), ("threadpool", W.run_threadpool(case, []))):
+                    self.ctx.count()
+                    bad = compare_to_reference(case, ref, obs, config)
+                    if not bad and self.extra_oracle is not None:
+                        try:
+                            bad = self.extra_oracle(case, config, [], obs)
+                        except Exception as err:  # noqa
+                            bad = ("malformed-result", "%s: %s" % (type(err).__name__, err))
+                    if bad:
+                        cls = sorted({type(W.make_unexpected(p)).__name__ for p, (f, fo) in W.outcome_table(case).items() if fo["r"] == "exc"})
+                        out.append((bad[0], config, obs.get("choices", []), "%s [unexpected exception classes: %s]" % (bad[1], ",".join(cls))))
+                        return out
+        finally:
+            W.CLASS_SALT = old
         return out
 
     def collect(self, case, config, sched, obs):
@@ -290,6 +323,7 @@ def small_outcomes():
         ("bad", I, {"r": "ok", "v": "bad"}),
         ("obj-dd", sub("deferred", "deferred"), {"r": "ok", "v": {"a": {"r": "ok", "v": 1}, "b": {"r": "ok", "v": None}}}),
         ("obj-sd", sub("sync", "nested"), {"r": "ok", "v": {"a": {"r": "rerr"}, "b": {"r": "ok", "v": 2}}}),
+        ("obj-exc", sub("sync", "sync"), {"r": "ok", "v": {"a": {"r": "exc"}, "b": {"r": "ok", "v": 2}}}),
         ("list-obj", {"t": "list", "of": {"t": "obj", "fields": [{"key": "a", "mode": "deferred", "ty": I}]}},
          {"r": "ok", "v": [{"a": {"r": "ok", "v": 1}}, None, {"a": {"r": "rerr"}}]}),
     ]
@@ -495,12 +529,150 @@ def real_pool_stage(ctx, prop, extra_oracle=None, n_random=4, kinds=None):
     ctx.extra["real_pool_runs"] = ran
 
 
+ARG_NAMES = ("func", "fn", "args", "kwargs", "self", "timeout", "loop", "future", "callback", "runtime", "info", "root",
+             "ctx", "value", "executor", "context", "then", "else_", "x")
+
+
+def _args_resolver(root, ctx, info, **kw):
+    return 100 + sum(v for v in kw.values() if isinstance(v, int))
+
+
+def args_cases(rng, n_random):
+    """(sdl, query) pairs: REAL schemas whose fields take arguments with awkward names, passed explicitly / by default."""
+    out = []
+    for name in ARG_NAMES:
+        sdl = ("type Query { f(%s: Int = 7, plain: Int): Int o: O } type O { g(%s: Int = 2, %s2: Int): Int } "
+               "type Mutation { m(%s: Int = 1): Int n(%s: Int): Int }" % (name, name, name, name, name))
+        out.append((sdl, "{ f(%s: 1) o { g } }" % name))
+        out.append((sdl, "{ f o { g(%s: 5, %s2: 1) } }" % (name, name)))
+        out.append((sdl, "mutation { m n(%s: 3) m2: m(%s: 4) }" % (name, name)))
+    for _ in range(n_random):
+        names = rng.sample(ARG_NAMES, rng.randint(2, 4))
+        decl = ", ".join("%s: Int%s" % (n, " = %d" % rng.randint(0, 9) if rng.random() < 0.5 else "") for n in names)
+        sdl = "type Query { f(%s): Int o: O } type O { g(%s): Int } type Mutation { m(%s): Int }" % (decl, decl, decl)
+        use = ", ".join("%s: %d" % (n, rng.randint(0, 9)) for n in names if rng.random() < 0.6)
+        call = "(%s)" % use if use else ""
+        out.append((sdl, "{ f%s o { g%s } }" % (call, call)))
+        out.append((sdl, "mutation { m%s b: m%s }" % (call, call)))
+    return out
+
+
+def args_stream(ctx, n_random):
+    """
+    Field ARGUMENTS (not part of the simplified operation form / the Lean model): the four configurations must agree on
+    (status, data, errors, exception class) for resolvers `def r(root, ctx, info, **kw)` whatever the arguments are called.
+    """
+    import asyncio
+    from concurrent.futures import Future
+    from py_gql import build_schema, process_graphql_query
+    from py_gql.execution import BlockingExecutor, Executor
+    from py_gql.execution.runtime import AsyncIORuntime, BlockingRuntime, ThreadPoolRuntime
+
+    class ArgWorld:
+        def __init__(self):
+            self.queue, self.table, self.trace = [], {}, []
+
+        def ev(self, *a):
+            pass
+
+    def canon(status, res=None, exc=None):
+        if status == "ok":
+            return ["ok", dumps(res.data), W.canon_errors(res.errors)]
+        return [status, type(exc).__name__ if exc is not None else None]
+
+    def run_cfg(cfg, schema, query, lifo):
+        try:
+            with W.watchdog():
+                if cfg == "blocking":
+                    return canon("ok", process_graphql_query(schema, query, runtime=BlockingRuntime(), executor_cls=BlockingExecutor))
+                if cfg == "generic-blocking":
+                    return canon("ok", process_graphql_query(schema, query, runtime=BlockingRuntime(), executor_cls=Executor))
+                if cfg == "threadpool":
+                    w = ArgWorld()
+                    rt = ThreadPoolRuntime(max_workers=1)
+                    rt._inner.shutdown(wait=False)
+                    rt._inner = W.ManualExecutor(w)
+                    fut = process_graphql_query(schema, query, runtime=rt, executor_cls=Executor)
+                    if not isinstance(fut, Future):
+                        return ["not-a-future"]
+                    while not fut.done() and w.queue:
+                        e = w.queue.pop(-1 if lifo else 0)
+                        try:
+                            r = e.fn(*e.args, **e.kwargs)
+                        except W.Watchdog:
+                            raise
+                        except BaseException as err:  # noqa
+                            e.fut.set_exception(err)
+                        else:
+                            e.fut.set_result(r)
+                    if not fut.done():
+                        return ["pending"]
+                    if fut.exception() is not None:
+                        return canon("failed", exc=fut.exception())
+                    return canon("ok", fut.result())
+                loop = W.private_loop()
+                rt = AsyncIORuntime(loop=loop, execute_blocking_functions_in_thread=False)
+                aw = process_graphql_query(schema, query, runtime=rt, executor_cls=Executor)
+                task = asyncio.ensure_future(aw, loop=loop)
+                W.drain(loop)
+                if not task.done():
+                    task.cancel()
+                    W.drain(loop)
+                    return ["pending"]
+                if task.exception() is not None:
+                    return canon("failed", exc=task.exception())
+                return canon("ok", task.result())
+        except W.Watchdog:
+            return ["hang"]
+        except Exception as err:  # noqa
+            return canon("failed", exc=err)
+
+    n = 0
+    for sdl, query in args_cases(ctx.rng, n_random):
+        if ctx.out_of_time():
+            break
+        try:
+            schema = build_schema(sdl)
+            for tname, fields in (("Query", ("f",)), ("O", ("g",)), ("Mutation", ("m", "n"))):
+                for fname in fields:
+                    if fname in schema.types[tname].field_map:
+                        schema.register_resolver(tname, fname, _args_resolver)
+            schema.register_resolver("Query", "o", lambda *a, **k: {})
+        except Exception as err:  # noqa
+            ctx.notes.append("args stream: schema not built (%s)" % type(err).__name__)
+            continue
+        ref = run_cfg("blocking", schema, query, False)
+        ctx.stat("args-stream:" + ref[0])
+        for cfg, lifo in (("generic-blocking", False), ("asyncio", False), ("threadpool", False), ("threadpool", True)):
+            got = run_cfg(cfg, schema, query, lifo)
+            ctx.count()
+            n += 1
+            if got != ref:
+                if got[0] == "hang":       # wall-clock watchdog: confirm with the long timeout before reporting
+                    old = W.WATCHDOG_S
+                    W.WATCHDOG_S = W.CONFIRM_S
+                    try:
+                        got = run_cfg(cfg, schema, query, lifo)
+                    finally:
+                        W.WATCHDOG_S = old
+                    if got == ref:
+                        ctx.stat("watchdog-unconfirmed")
+                        continue
+                import re
+                argn = sorted(set(re.findall(r"(\w+):", query)))
+                ctx.fail("c08:args:%s:%s-vs-%s:%s" % (cfg, ref[0], got[0], "+".join(a for a in argn if a in ARG_NAMES)[:60]),
+                         "field arguments: %s gives %s, BlockingExecutor gives %s" % (cfg, got, ref),
+                         {"sdl": sdl, "query": query, "config": cfg, "blocking": ref, "got": got, "stream": "args"})
+    ctx.extra["args_stream_runs"] = n
+
+
 def run(ctx):
     W.quiet()
     chk = Checker(ctx, "C08")
     try:
         run_streams(ctx, chk)
         real_pool_stage(ctx, "C08", n_random=6 if ctx.tier == "quick" else 40)
+        args_stream(ctx, 12 if ctx.tier == "quick" else 120)
     finally:
         W.close_private_loop()
     ctx.extra["configurations"] = list(CONFIGS)
@@ -510,6 +682,16 @@ def run(ctx):
 def replay(ctx, data):
     W.quiet()
     inp = data.get("input", {})
+    if inp.get("stream") == "args":
+        before = len(ctx.found)
+        saved = args_cases
+        try:
+            globals()["args_cases"] = lambda rng, n: [(inp["sdl"], inp["query"])]
+            args_stream(ctx, 0)
+        finally:
+            globals()["args_cases"] = saved
+            W.close_private_loop()
+        return len(ctx.found) == before
     case = inp.get("case")
     if case is None:
         return True
